@@ -280,7 +280,7 @@ func c20Run(r *simkit.Run) {
 
 	r.Sched(simkit.SchedOpts{MaxSteps: 5000000})
 
-	if r.Live() > 0 {
+	if r.Unfinished() {
 		r.Fail("liveness", "database", "history did not finish")
 	}
 
